@@ -35,7 +35,7 @@ CLAIMS = {
   design_ref='DESIGN.md section 4, C01',
   note='Trusted: Coq kernel; strict ASA device semantics (Cisco/Device.v); script parser and generator (vlib/cisco.py). Partial: object-group '
        'logic and multi-ACL flow are not proved; crypto maps and address-named tunnel-groups with group-policies are executed on device models without a convergence theorem; certificate maps, tunnel-group-maps and named tunnel-groups are not modelled.',
-  extra_note=' C01_cisco_routes_converge_stepwise: the route commands of cisco.diffRoutes (shared by ASA and IOS) for one VRF are a Gallina model (Cisco/Routes.v) compared command by command with drc on generated route lists; for every edit script between route lists with one route per destination every command is accepted, every prefix keeps a route for each destination routed before and after, and the table ends with exactly the target routes. ASA crypto maps with crypto ACLs, IKEv1 transform-sets and IKEv2 ipsec-proposals are generated separately and executed on Cisco/Vpn.v (device model and oracle without a convergence theorem). Tunnel-groups named by the peer address (IPv4 and IPv6) with attribute sections, users with their attributes, the group-policies both reference, and the ACLs (vpn-filter, split-tunnel-network-list) and address pools of those (renamed, shared, split, left-over generated objects, edited in place) are executed on Cisco/Tunnel.v: every command accepted, tunnel-groups with references expanded equal the target, second compare by the real tool silent.',
+  extra_note=' C01_cisco_routes_converge_stepwise: the route commands of cisco.diffRoutes (shared by ASA and IOS) for one VRF are a Gallina model (Cisco/Routes.v) compared command by command with drc on generated route lists; for every edit script between route lists with one route per destination every command is accepted, every prefix keeps a route for each destination routed before and after, and the table ends with exactly the target routes. ASA crypto maps with crypto ACLs, IKEv1 transform-sets and IKEv2 ipsec-proposals are generated separately and executed on Cisco/Vpn.v (device model and oracle without a convergence theorem). Tunnel-groups named by the peer address (IPv4 and IPv6) with attribute sections, users with their attributes, the group-policies both reference, and the ACLs (vpn-filter, split-tunnel-network-list) and address pools of those (renamed, shared, split, left-over generated objects, edited in place) are executed on Cisco/Tunnel.v: every command accepted, tunnel-groups and users with references expanded equal the target, second compare by the real tool silent. For this model "equivalent up to generated object names" is a theorem: C01_tunnel_oracle_independent_of_generated_names (renaming ACLs, pools and group-policies injectively together with the references to them changes neither the semantics nor the oracle verdict) and C01_tunnel_accepted_script_result_independent_of_generated_names (the strict device keeps the premise — every reference names an existing object — in every state an accepted script passes through).',
   technique='Coq proof of the ACL line core for all valid edit scripts + execution of the real script on a Coq device semantics'),
  'C02': dict(
   text='C02_ios_acl_equiv: for EVERY edit script between a device ACL and a target ACL in which no line occurs twice (IOS refuses such '
